@@ -47,7 +47,8 @@ def errnos_for(ev):
     if c in ("readlink", "readlinkat"):
         return ["EACCES", "EIO", "ENOMEM"]
     if c == "lseek":
-        return ["EIO"]
+        # EINVAL: "whence is not valid" is how a file system without SEEK_DATA/SEEK_HOLE support answers
+        return ["EIO", "EINVAL", "EOVERFLOW"]
     if c in ("fchmod", "utimensat"):
         return ["EPERM", "EIO", "EROFS", "EACCES"]
     if c == "fchown":
